@@ -71,6 +71,9 @@ def code_eq(x, y):
 def streq(it, a, b):
     """-> bool | z3 Bool.  a, b: SStr | str | SVal(str)"""
     if isinstance(a, SVal) or isinstance(b, SVal):
+        for x, y in ((a, b), (b, a)):
+            if isinstance(x, SVal) and (y == "" or (isinstance(y, SStr) and y.fixed() and not y.items)):
+                return tlen(x.e) == 0          # the empty text is the only text of length 0
         ea = a.e if isinstance(a, SVal) else text_term(it, a)
         eb = b.e if isinstance(b, SVal) else text_term(it, b)
         return ea == eb
